@@ -2124,6 +2124,38 @@ fn gen_c08(ctx: &mut Ctx) {
             }
         }
     }
+    // pages arrive bit-exact also from a page source that talks to OTHER signs on the same bus while it is drained (calls
+    // that send addressed messages only: goodbye, page flips, configure_if_needed of a sign that is ready)
+    for k in 0..(if thorough { 120 } else { 24 }) {
+        let own = [3u16, 0x103, 0xFFFF][k % 3];
+        let other = [7u16, 3, 0x2FF][k % 3];
+        let style = if k % 2 == 0 { PageFlipStyle::Manual } else { PageFlipStyle::Automatic };
+        let t = [5usize, 3, 2, 8, 0, 10][k % 6];
+        let t2 = [2usize, 5, 9][k % 3];
+        let (w, h) = SIGN_SIZES[t];
+        let npages = 1 + k % 3;
+        let pages: Vec<String> = (0..npages).map(|j| small_page(rng.byte().wrapping_add(j as u8), w, h, &mut rng)).collect();
+        let calls: Vec<String> = (0..npages)
+            .map(|j| match (k / 2 + j) % 5 {
+                0 => format!("BYE:{}", other),
+                1 => format!("SHW:{}:9/LNX:{}:9", other, other),
+                2 => format!("CIN:{}:{}", other, t2),
+                3 => "-".to_string(),
+                _ => format!("LNX:{}:4/SHW:{}:4/CIN:{}:{}", other, other, other, t2),
+            })
+            .collect();
+        // a goodbye leaves the other sign unconfigured: a later configure_if_needed of it would transfer data, so drop
+        // whatever follows a goodbye
+        let mut said_bye = false;
+        let calls: Vec<String> = calls.into_iter().map(|c| if said_bye { "-".to_string() } else { said_bye = c.starts_with("BYE"); c }).collect();
+        let line = format!("CL 2 {} {} {} M | CFG.{}.{} CFG.{}.{} SNN.{}.{}.{} SHW.{}.50", own, str_style(style), other, other, t2, own, t, own, calls.join("~"), pages.join("+"), own);
+        let res = ctx.case(line.clone(), true, "source-talks-to-other-signs");
+        let toks: Vec<&str> = res.split(" # ").next().unwrap_or("").split(' ').filter(|s| !s.is_empty()).collect();
+        let manual = style == PageFlipStyle::Manual;
+        let want = format!("DONE.{}/{}.{}.{}.{}/", if manual { "M" } else { "A" }, if manual { "PLD" } else { "SHP" }, t, npages, hash_page_literals(&pages));
+        let ok = toks.len() >= 4 && toks[2].starts_with(&want);
+        ctx.monitor(ok, "C08-closed-loop", &line, &format!("send_pages over a source that talks to sign {} gave {} wanted {}...", other, toks.get(2).unwrap_or(&"?"), want));
+    }
     ctx.notes.insert("prior-states".into(), prior_count.to_string());
     // page flipping across repeated sends: send L1 pages, flip part of the way through them, send L2 pages (fewer, the
     // same number, more, none), keep flipping -- on manual and automatic signs
